@@ -49,7 +49,7 @@ def main() -> None:
                 "tools/seedcheck.py seeded/%s --all   (scratch worktree of /repo HEAD + git apply patch.diff)" % name,
                 "pytest (65 tests) with the change applied",
                 "demo.py on the unchanged tree and with the change applied",
-                "every check's quick tier with HV_REPO=<scratch>",
+                ("every check's quick tier with HV_REPO=<scratch>" if len(checks) >= 20 else "quick tier of " + ", ".join(sorted(checks)) + " with HV_REPO=<scratch> (tools/seedmatrix.py --owner-first: the owning check; the checks anchored in the touched files when it stays silent)"),
             ],
             "applies_to_head": res.get("applies"),
             "tests_pass_with_change": res.get("tests_pass"),
